@@ -13,7 +13,8 @@ RESERVED = {189, 193, 37, 109, 115, 117, 215}   # 215: scalar segyio applies to 
 FREE_FIELDS = [f for f in FIELDS if f not in RESERVED]
 # "mid": first == last, differs between; "flag": two values {0, C}; "zerofirst": varies, 0 in the first trace;
 # "perline": a function of the trace's inline number (a swath number, a fold per line)
-FIELD_KINDS = ["const", "vary", "dup", "extreme", "negvary", "mid", "flag", "zerofirst", "perline"]
+# "sameend": varies, the same value (4242) in the last trace for every field of this kind, different first values
+FIELD_KINDS = ["const", "vary", "dup", "extreme", "negvary", "mid", "flag", "zerofirst", "perline", "sameend"]
 FREE_BIN = [3201, 3205, 3209, 3227, 3233, 3235, 3255]
 
 
@@ -71,6 +72,10 @@ def field_columns(fields, n, base):
         elif k == "zerofirst":
             a = rng.integers(1, min(hi, 10 ** 6) + 1, n).astype(np.int64)
             a[0] = 0
+            cols[c] = a
+        elif k == "sameend":
+            a = rng.integers(1, 4000, n).astype(np.int64)
+            a[-1] = 4242
             cols[c] = a
         elif k == "perline":
             key = np.asarray(base.get(189, np.arange(n))).astype(np.int64)
